@@ -532,7 +532,8 @@ class Directory(MerkleNode):
         for dirpath in reversed(traversal):
             node = top_dir[dirpath]
             assert node.object_type == FromDiskType.DIRECTORY
-            path, name = os.path.split(dirpath)
+            # give the filter the same (real) path as in the first pass
+            path, name = os.path.split(os.path.join(top_path, dirpath[1:]))
             if dirpath and not path_filter(path, name, list(node.keys())):
                 # should be filtered
                 del top_dir[dirpath]
